@@ -38,6 +38,8 @@ func init() {
 		}, &slip.CLPkg)
 }
 
+var nilHierarchy = []slip.Symbol{slip.Symbol("null"), slip.ListSymbol, slip.SequenceSymbol, slip.TrueSymbol}
+
 // Typep represents the typep function.
 type Typep struct {
 	slip.Function
@@ -50,25 +52,22 @@ func (f *Typep) Call(s *slip.Scope, args slip.List, depth int) slip.Object {
 	if !ok {
 		slip.TypePanic(s, depth, "type", args[1], "symbol")
 	}
+	var hierarchy []slip.Symbol
 	switch ta := args[0].(type) {
 	case nil:
-		if strings.EqualFold("null", string(sym)) {
-			return slip.True
-		}
+		hierarchy = nilHierarchy
 	case slip.List:
-		if len(ta) == 0 && strings.EqualFold("null", string(sym)) {
-			return slip.True
-		}
-		for _, h := range ta.Hierarchy() {
-			if strings.EqualFold(string(h), string(sym)) {
-				return slip.True
-			}
+		if len(ta) == 0 {
+			hierarchy = nilHierarchy
+		} else {
+			hierarchy = ta.Hierarchy()
 		}
 	default:
-		for _, h := range ta.Hierarchy() {
-			if strings.EqualFold(string(h), string(sym)) {
-				return slip.True
-			}
+		hierarchy = ta.Hierarchy()
+	}
+	for _, h := range hierarchy {
+		if strings.EqualFold(string(h), string(sym)) {
+			return slip.True
 		}
 	}
 	return nil
